@@ -73,7 +73,7 @@ func vf40Confs(variant int) map[string]*conf.Path {
 			MaxReaders:        (variant / 2 % 2) * 3,                                        // cold
 			RecordDeleteAfter: conf.Duration(time.Duration(1+variant%3) * time.Hour),       // hot
 			RecordPath:        "/nonexistent/%path/%Y-%m-%d_%H-%M-%S-%f",
-			RunOnDemandStartTimeout: conf.Duration(200 * time.Millisecond), RunOnDemandCloseAfter: conf.Duration(100 * time.Millisecond),
+			RunOnDemandStartTimeout: conf.Duration(3 * time.Millisecond), RunOnDemandCloseAfter: conf.Duration(2 * time.Millisecond),
 			RunOnDemand: map[bool]string{true: "demand", false: ""}[variant%4 == 1],
 		}
 	}
@@ -144,7 +144,15 @@ func vf40Stress(t testing.TB, run int, dur time.Duration, workers int, seed uint
 					// (setPathReady after a publish) while the manager closes it (cold reload),
 					// and readers of the path configuration during hot reloads
 					name = "cam"
-					kind = []int{0, 0, 0, 3, 9, 9, 9, 10, 10, 6}[rnd.IntN(10)]
+					if w == 0 {
+						// one worker reloads (alternating cold changes), pacing itself
+						kind = 9
+						time.Sleep(time.Duration(100+rnd.IntN(400)) * time.Microsecond)
+					} else {
+						kind = []int{0, 0, 0, 0, 0, 3, 10, 10, 6, 8}[rnd.IntN(10)]
+					}
+				} else if kind == 9 && rnd.IntN(3) != 0 {
+					kind = 7 // reloads are rarer than client operations
 				}
 				switch kind {
 				case 0, 1, 2:
@@ -266,6 +274,139 @@ func TestVerif_C40_Stress(t *testing.T) {
 		out.Emit(r)
 		if r.Dump != "" {
 			break // goroutines of a hung run are abandoned; do not pile further runs on top
+		}
+	}
+}
+
+// ---- directed replays of the delicate orders of Channels.tla: the path loop is parked inside
+// setAvailable (the publisher's APISourceDescribe, which the path calls before it tells the
+// manager that it is ready, blocks on a harness gate) while the manager is made to close that
+// path (cold reload) or to shut down; then the gate is released. No hook is needed.
+
+type vf40GatedPub struct {
+	vf40Client
+	gate    chan struct{}
+	entered chan struct{}
+	once    sync.Once
+}
+
+func (c *vf40GatedPub) APISourceDescribe() *defs.APIPathSource {
+	c.once.Do(func() {
+		close(c.entered)
+		<-c.gate
+	})
+	return &defs.APIPathSource{Type: defs.APIPathSourceTypeRTSPSession, ID: "gated"}
+}
+
+func vf40Directed(t testing.TB, run int, closer string) *vf40Run {
+	pm := &pathManager{
+		writeQueueSize: 8, udpMaxPayloadSize: 1472, rtpMaxPayloadSize: 1450,
+		readTimeout: conf.Duration(10 * time.Second), writeTimeout: conf.Duration(10 * time.Second),
+		rtspAddress: ":8554", pathConfs: vf40Confs(0), authManager: vfpAuth{}, parent: vfpNilLogger{},
+	}
+	pm.initialize()
+	var clock atomic.Int64
+	var mu sync.Mutex
+	res := &vf40Run{Run: run}
+	const watchdog = 10 * time.Second
+	var wg sync.WaitGroup
+	hung := atomic.Bool{}
+	spawn := func(kind string, fn func() string) {
+		wg.Add(1)
+		go func() {
+			defer wg.Done()
+			op := vf40Op{Kind: kind, Start: clock.Add(1)}
+			done := make(chan string, 1)
+			go func() { done <- fn() }()
+			select {
+			case r := <-done:
+				op.Res = r
+				op.End = clock.Add(1)
+			case <-time.After(watchdog):
+				hung.Store(true)
+			}
+			mu.Lock()
+			op.ID = len(res.Ops) + 1
+			res.Ops = append(res.Ops, op)
+			mu.Unlock()
+		}()
+	}
+	pub := &vf40GatedPub{gate: make(chan struct{}), entered: make(chan struct{})}
+	pub.pm = pm
+	pub.pub = true
+	spawn("publish", func() string {
+		r, err := pm.AddPublisher(defs.PathAddPublisherReq{Author: pub, Desc: vfpDesc(),
+			AccessRequest: defs.PathAccessRequest{Name: "cam", Publish: true, SkipAuth: true}})
+		if err != nil {
+			return vfpErrKind(err)
+		}
+		pub.path.Store(r.Path.(*path))
+		return "ok"
+	})
+	select {
+	case <-pub.entered: // the path loop is now parked inside setAvailable
+	case <-time.After(watchdog):
+		hung.Store(true)
+	}
+	sd := vf40Op{Kind: "shutdown"}
+	shutdownDone := make(chan struct{})
+	switch closer {
+	case "reload":
+		spawn("reload", func() string { pm.ReloadPathConfs(vf40Confs(2)); return "ok" }) // cold change: the path is closed
+		// a second request that needs the manager loop: it can only be served after the close
+		spawn("apilist", func() string { _, err := pm.APIPathsList(); if err != nil { return vfpErrKind(err) }; return "ok" })
+	case "shutdown":
+		sd.Start = clock.Add(1)
+		go func() { pm.close(); close(shutdownDone) }()
+	}
+	// give the manager time to reach doClosePath / the shutdown to cancel the contexts
+	time.Sleep(20 * time.Millisecond)
+	spawn("describe", func() string {
+		_, err := pm.Describe(defs.PathDescribeReq{AccessRequest: defs.PathAccessRequest{Name: "cam", SkipAuth: true}})
+		if err != nil {
+			return vfpErrKind(err)
+		}
+		return "ok"
+	})
+	time.Sleep(5 * time.Millisecond)
+	close(pub.gate)
+	wg.Wait()
+	if closer != "shutdown" {
+		sd.Start = clock.Add(1)
+		go func() { pm.close(); close(shutdownDone) }()
+	}
+	select {
+	case <-shutdownDone:
+		sd.End = clock.Add(1)
+		sd.Res = "ok"
+	case <-time.After(watchdog):
+		hung.Store(true)
+	}
+	res.Shutdown = sd
+	if hung.Load() {
+		buf := make([]byte, 1<<20)
+		n := runtime.Stack(buf, true)
+		d := string(buf[:n])
+		if len(d) > 60000 {
+			d = d[:60000]
+		}
+		res.Dump = d
+	}
+	return res
+}
+
+func TestVerif_C40_Directed(t *testing.T) {
+	vfpInstallHooks()
+	out := verifrt.NewOut(t)
+	defer out.Close()
+	n := verifrt.Param("REPEAT", 3)
+	for i := 0; i < n; i++ {
+		for j, closer := range []string{"reload", "shutdown"} {
+			r := vf40Directed(t, -(1 + 2*i + j), closer)
+			out.Emit(r)
+			if r.Dump != "" {
+				return
+			}
 		}
 	}
 }
